@@ -874,7 +874,14 @@ def run(ctx) -> core.Report:
     problems = [(t, P) for t, P in fixed_problems(rng)] + shared_shallow_problems(rng) + const_fold_problems(rng) + deep_problems(rng, thorough)
     n_rand = 12000 if thorough else 1500
     for _ in range(n_rand):
-        P, pool, style = rand_problem(rng)
+        try:
+            P, pool, style = rand_problem(rng)
+        except RecursionError:
+            raise
+        except Exception as ex:  # noqa: BLE001   (the API refused to build a form on this tree: nothing to extract)
+            k = f"construction raised {type(ex).__name__}"
+            rep.skipped[k] = rep.skipped.get(k, 0) + 1
+            continue
         problems.append((f"rand:{style}", P))
 
     ids = Ids()
